@@ -770,7 +770,7 @@ def _ev(t, env, a_key, b_key, ordering):
     return eval_sign(t, a_key, b_key, ordering)
 
 
-def returned_after(ctx, fn, arm_event=None, arm_edge=None, P=None):
+def returned_after(ctx, fn, arm_event=None, arm_edge=None, P=None, assume=None):
     """Constant propagation of plain locals along every feasible path: the set
     of values returned on paths that crossed an arming event / edge (arm_event
     (e) / arm_edge(literal) -> bool; both None = armed from entry).  A value
@@ -826,15 +826,36 @@ def returned_after(ctx, fn, arm_event=None, arm_edge=None, P=None):
             out = out | frozenset([v if v is not None else "?"])
         return (armed, env, out)
 
+    case_vals = set()
+    if assume is not None:
+        for blk in fn.blocks.values():
+            if blk.term is not None and blk.term.get("k") == "SwitchStmt" and key(blk.term.get("cond")) == assume[0]:
+                for s2 in blk.succ:
+                    if s2 is not None and "case" in (fn.blocks[s2].label or {}):
+                        case_vals.add(const_val(fn.blocks[s2].label["case"]))
+
     def edge(q, lit):
+        if q == DEAD:
+            return q
         armed, env, out = q
+        if assume is not None and lit is not None:
+            if lit[0] == "default":
+                if key(lit[1]) == assume[0] and assume[1] in case_vals:
+                    return DEAD
+            elif not _lit_feasible_under(fn, lit, assume[0], assume[1]):
+                return DEAD
         if not armed and arm_edge is not None and lit is not None and arm_edge(lit):
             return (True, env, out)
         return q
+    step0 = step
+
+    def step(q, e, st, b, i):
+        return q if q == DEAD else step0(q, e, st, b, i)
     g, parent, finals = run_paths(ctx, fn, (armed0, frozenset(), frozenset()), step, edge, P)
     vals = set()
     for q, cur, bid in finals:
-        vals |= set(q[2])
+        if q != DEAD:
+            vals |= set(q[2])
     return vals
 
 
@@ -894,3 +915,72 @@ def value_source(fn, tree):
         if len(defs) == 1 and defs[0] is not None:
             return key(defs[0])
     return key(tree)
+
+
+def _lit_feasible_under(fn, lit, akey, aval, src_block=None):
+    """Can the branch literal hold when expression `akey` has the integer value
+    aval?  Unknown shapes are feasible (over-approximation)."""
+    from .paths import norm_literal
+    if lit is None:
+        return True
+    if lit[0] == "case":
+        if key(lit[1]) != akey:
+            return True
+        return const_val(lit[2]) == aval
+    if lit[0] == "default":
+        if key(lit[1]) != akey or src_block is None:
+            return True
+        vals = set()
+        for s in src_block.succ:
+            if s is not None:
+                lab = fn.blocks[s].label or {}
+                if "case" in lab:
+                    vals.add(const_val(lab["case"]))
+        return aval not in vals
+    try:
+        atoms = norm_literal(lit[0], lit[1])
+    except Exception:
+        return True
+    for op, a, b in atoms:
+        x = y = None
+        if a == akey and _num(b) is not None:
+            x, y = aval, _num(b)
+        elif b == akey and _num(a) is not None:
+            x, y = _num(a), aval
+        else:
+            continue
+        ok = {"==": x == y, "!=": x != y, "<": x < y, "<=": x <= y, ">": x > y, ">=": x >= y}.get(op, True)
+        if not ok:
+            return False
+    return True
+
+
+def assigned_under(fn, var, akey, aval, use):
+    """The definitions of plain local `var` that can reach an event/terminator
+    matching use(block, kind, tree) along paths that are feasible when `akey`
+    evaluates to aval (per iteration: facts are not carried across a
+    re-declaration of var).  Returns a set of rhs trees (by id) as a list of
+    events; the declaration's initialiser counts as a definition.  Works the
+    same for `switch (akey)` and for an if/else-if chain on akey."""
+    out = {}
+    seen = set()
+    st = [(fn.entry, None)]
+    while st:
+        bid, last = st.pop()
+        if (bid, id(last)) in seen:
+            continue
+        seen.add((bid, id(last)))
+        blk = fn.blocks[bid]
+        for e in blk.ev:
+            if e["e"] == "decl" and e["n"] == var:
+                last = e
+            elif e["e"] == "asg" and key(e["lhs"]) == var:
+                last = e
+            elif e["e"] == "inc" and key(e["x"]) == var:
+                last = e
+        if blk.term is not None and "cond" in blk.term and use(blk, blk.term.get("cond")) and last is not None:
+            out[id(last)] = last
+        for s, lit in fn.edge_literals(bid):
+            if _lit_feasible_under(fn, lit, akey, aval, blk):
+                st.append((s, last))
+    return list(out.values())
